@@ -80,6 +80,15 @@ def install_twisted(reg):
     em["twisted.internet.defer.Deferred"] = lambda it, args, kw: VObj("Deferred")
 
 
+def allows(it, expected, name):
+    """the application's declaration admits this subprotocol name: no set declared, or the name is in it"""
+    if expected is NONE:
+        return VBool(True)
+    if isinstance(expected, VOpt):
+        return VBool(z3.Or(expected.isnone, z3.Select(expected.inner.z, name.z)))
+    return VBool(z3.Select(expected.z, name.z))
+
+
 def install_spec(reg):
     sf = reg.spec_funcs
 
@@ -109,14 +118,6 @@ def install_spec(reg):
                             z3.Implies(in_states(it, o, ["open_full", "closing"]), z3.Not(half))))
 
     sf["sc_inv"] = sc_inv
-
-    def allows(it, expected, name):
-        """the application's declaration admits this subprotocol name: no set declared, or the name is in it"""
-        if expected is NONE:
-            return VBool(True)
-        if isinstance(expected, VOpt):
-            return VBool(z3.Or(expected.isnone, z3.Select(expected.inner.z, name.z)))
-        return VBool(z3.Select(expected.z, name.z))
 
     sf["allows"] = allows
 
